@@ -24,7 +24,7 @@ open Matrix (Op)
 
 variable {α : Type}
 
-def nrows (rs : Rows α) : Nat := rs.length
+abbrev nrows (rs : Rows α) : Nat := rs.length
 
 /-- the common row length (that of the first row) -/
 def ncols : Rows α → Nat
